@@ -221,6 +221,15 @@ impl LayoutSpec {
             plan.extra_files.push(("blkfoo.dat".into(), vec![1, 2, 3]));
             plan.extra_files.push(("blk.dat".into(), vec![1, 2, 3]));
             plan.extra_files.push(("blk00000.dat.bak".into(), vec![9; 50]));
+            // numbers that do not fit 64 bits (2^64, 2 * 2^64, 2^64 + an indexed number, 23 digits): no record can name them
+            plan.extra_files.push(("blk18446744073709551616.dat".into(), vec![0x4b; 300]));
+            plan.pre_files.push(("blk36893488147419103232.dat".into(), vec![0x4c; 300]));
+            plan.extra_files.push(("blk99999999999999999999999.dat".into(), vec![0x4d; 300]));
+            for n in numbers.iter().take(2) {
+                let big = (1u128 << 64) + *n as u128;
+                plan.extra_files.push((format!("blk{}.dat", big), vec![0x4e; 700]));
+                plan.pre_files.push((format!("blk{}.dat", big + (1u128 << 64)), vec![0x4f; 700]));
+            }
             plan.extra_files.push(("xblk00000.dat".into(), vec![9; 50]));
             // names that repeat the prefix / suffix around the number of an indexed file
             for n in numbers.iter().take(3) {
